@@ -89,6 +89,7 @@ mpn_mul_fft_main(mp_ptr r1, mp_srcptr i1, mp_size_t n1, mp_srcptr i2, mp_size_t 
          w += wadj;
       }
 
+      MPIR_VERIF_EVT (MPIR_VERIF_FFT_TRUNC, depth, w, n1, n2);
       mpn_mul_trunc_sqrt2(r1, i1, n1, i2, n2, depth, w);
    } else 
    {   
@@ -98,6 +99,7 @@ mpn_mul_fft_main(mp_ptr r1, mp_srcptr i1, mp_size_t n1, mp_srcptr i2, mp_size_t 
          w *= 3;
       }
       
+      MPIR_VERIF_EVT (MPIR_VERIF_FFT_MFA, depth, w, n1, n2);
       mpn_mul_mfa_trunc_sqrt2(r1, i1, n1, i2, n2, depth, w);
    }
 }
